@@ -4,6 +4,7 @@ import (
 	"fmt"
 	"go/constant"
 	"go/types"
+	"os"
 	"strings"
 )
 
@@ -621,7 +622,12 @@ func (e *Env) trQuant(x *EQuant) (Term, Ty) {
 					}
 					n2.vars[v.Name] = Binding{Term{"(- " + nm + " (soff " + st.S + "))", SInt}, ty}
 					sub = &n2
-					autoPats = append(autoPats, "(Elem (sarr "+st.S+") "+nm+")")
+					arr := "(sarr " + st.S + ")"
+					if os.Getenv("GOWP_NOQARR") == "" && g.sc.patternUnsafe(st.S) {
+						// a merged (ite) slice value cannot appear in a pattern: name its backing array
+						arr = g.constFor("qarr", Term{arr, SRef}).S
+					}
+					autoPats = append(autoPats, "(Elem "+arr+" "+nm+")")
 				}
 			}
 		}
@@ -1026,6 +1032,13 @@ func (e *Env) trCall(x *ECall) (Term, Ty) {
 			floor = "allocBase"
 		}
 		return Term{"(> (rootOid " + r + ") " + floor + ")", SBool}, specBool
+	case "arrof":
+		// backing array of a slice (to state that two slices do not share storage)
+		v, _ := arg(0)
+		if v.Sort != SSlice {
+			g.fail("arrof() of sort %s", v.Sort)
+		}
+		return Term{"(sarr " + v.S + ")", SRef}, Ty{Spec: SRef}
 	case "isobj":
 		v, _ := arg(0)
 		return Term{"((_ is Obj) " + v.S + ")", SBool}, specBool
